@@ -12,7 +12,11 @@ BASELINE = ("cd /repo && /venv/bin/python -m pytest -ra -q -p no:cacheprovider -
 COMMON_NOTE = ("Trusted base: Python's ast parser; the seed tables of the abstract domains (which names are nm / nm-per-pixel / "
                "pixels, which rotation maps which frame; DESIGN.md Appendix B); transfer tables for numpy/scipy/dask/polars callees. "
                "Decides only the structural clauses listed in DESIGN.md section 5 for this property; numerical clauses are listed as "
-               "not decided in the evidence file. No statement about numpy/scipy/dask/polars internals.")
+               "not decided in the evidence file. No statement about numpy/scipy/dask/polars internals. An obligation that is not discharged on the "
+               "program as written is re-evaluated on behaviour-preserving views of it (private helpers inlined, comprehensions unrolled; sa/views.py) and "
+               "is refuted only if it fails on every view. Structural rules report a violation when their construct is absent: deep restructurings of an "
+               "anchored function can therefore be reported although behaviour is unchanged (measured in DESIGN.md section 10.8). Genuine defects that were "
+               "recorded rather than repaired are listed in /verif/known_findings.jsonl and printed as KNOWN-FINDING lines (C08: D30, C18: D32).")
 
 CLAIMED = {
     "C01": dict(
@@ -48,7 +52,7 @@ CLAIMED = {
              "box shape, peak position, refined index and max_shifts >= 0; refutations carry a concrete witness assignment of the extracted "
              "forms. Array-shape tracking proves the ZNCC/NCC crop is symmetric, never empty and within range; an FFT-layout tag proves "
              "crop_by_max_shifts is only applied to FFT-ordered arrays; a def-use rule proves every nm->pixel conversion of max_shifts is "
-             "normalised first. Finiteness of scores on degenerate data is not decided.",
+             "normalised first. Finiteness of scores on degenerate data is not decided. Added after seeding: the (Z)NCC and FSC landscapes divide only where the norm is positive (finite on constant data), and every refinement is clipped to the caller's own max_shifts.",
         technique="abstract interpretation over ast (affine forms + symbolic array shapes/origins/layouts), Fourier-Motzkin inequality prover, def-use rule",
         ref="5 C05"),
     "C06": dict(
@@ -68,7 +72,7 @@ CLAIMED = {
              "rule evaluates all 12 model methods and compares the linear pre-processing chain of both operands (same wedge mask from the "
              "molecule's quaternion, same transform, callee of the matching family); the landscape geometry (zero displacement at shape//2, "
              "symmetric up-sampling mesh, mesh encoder/decoder identity) is proved on symbolic array shapes. Numerical equality with a reference "
-             "Pearson coefficient is not decided.",
+             "Pearson coefficient is not decided. Added after seeding: the search-range padding of the (Z)NCC operand is neutral (its own mean) in landscape and alignment alike.",
         technique="abstract interpretation over ast (homogeneity / bilinear normal forms; symbolic array shapes and origins), sibling-slot agreement",
         ref="5 C07"),
     "C08": dict(
@@ -77,7 +81,7 @@ CLAIMED = {
              "a box-shape scale tag evaluates the four mask builders: the plane normal dotted with the integer grid must be rotated W->M first and "
              "then divided by the shape. Structural rules cover the non-strict predicate (keeps DC, even), no-wedge/union/axis tables, and a "
              "flow-sensitive reaching-definitions analysis proves every accepted tilt spelling reaches the stored tilt model with no dead definition. "
-             "Holds for every shape, orientation and tilt range; floating-point ties on a plane are not decided.",
+             "Holds for every shape, orientation and tilt range; floating-point ties on a plane are not decided. The wedge predicate is decided on the nine sign patterns of the two signed distances. Known finding D30: the signed index grid is not closed under negation on even axes (Nyquist planes), so the mask is not even in k there.",
         technique="parity-split symbolic evaluation of grid recipes, frame/scale typing by abstract interpretation, reaching definitions on the CFG",
         ref="5 C08"),
     "C09": dict(
@@ -85,7 +89,7 @@ CLAIMED = {
              "loader under its key); a small boolean-mask domain evaluates random_splitter and proves the two returned masks are In(S) / NotIn(S) of "
              "the same index set; both half-averages index one stack with those two masks; an RNG-discipline rule (package-wide) proves randomness "
              "flows only from the seed argument through default_rng; the one-shot-iterable rule covers derived groups. Floating-point identity "
-             "across chunkings is not decided.",
+             "across chunkings is not decided. Added after seeding: per-group accumulators are created per iteration, the seed reaches the generator unchanged.",
         technique="syntax/dataflow rules on ast, boolean-mask abstract evaluation, package-wide RNG discipline rule",
         ref="5 C09"),
     "C10": dict(
@@ -96,7 +100,7 @@ CLAIMED = {
              "functions no task reaches; callers of lru_cache functions may not mutate the cached result; declared lazy shapes must come from the "
              "same source as the produced shape (for landscapes: a probe of the same callee with the same arguments, otherwise a symbolic "
              "comparison with the shape each model family produces). No schedule is explored and bitwise floating-point equality across "
-             "chunkings is not decided.",
+             "chunkings is not decided. Added after seeding: task-reachable code never mutates an argument in place, never writes a field of a shared model/tilt/backend object, no fixed dask key names, no random draw inside a task closure.",
         technique="call-graph reachability from discovered task entries + effect analysis (shared-state conflict rule), hash/eq rule, cached-result immutability rule, lazy-shape source rule with symbolic shapes",
         ref="5 C10"),
     "C11": dict(
@@ -112,14 +116,14 @@ CLAIMED = {
              "through the single to_dataframe/from_dataframe table with the same arguments, and that concatenations use one operand order for all "
              "three containers; a field-ownership rule (writers of _pos/_rotator/_features frozen in a table) and CFG must-pass-through checks prove "
              "the validation guards dominate the stores they protect (feature length, rotation count, reserved names, extra columns, validate-before-"
-             "mutate in append); an effect analysis proves the non-mutating methods write nothing. Polars semantics are trusted.",
+             "mutate in append); an effect analysis proves the non-mutating methods write nothing. Polars semantics are trusted. subset and concat are also decided by provenance (what reaches the constructor on every path), independent of how the lists are built.",
         technique="lock-step/same-source rules on ast, field-ownership table, CFG must-pass-through, effect analysis",
         ref="5 C12"),
     "C13": dict(
         text="Reader/writer table agreement only: the reserved column list, the key order and column indices written by to_dataframe, the default "
              "pos_cols + rot_cols of all four readers, the feature placement, the funnels (readers -> from_dataframe, writers -> to_dataframe) and the "
              "suffix sets of to_file/from_file are extracted from the source and must agree. This is a necessary condition of the round trip for "
-             "every table; numerical precision, CSV formatting and the rotation-vector branch cut are not decided.",
+             "every table; numerical precision, CSV formatting and the rotation-vector branch cut are not decided. The table built by to_dataframe is evaluated by the interpreter (dict literal or loops give the same abstract table); readers do not re-bind the frame, writers forward options unchanged.",
         technique="reader/writer table-agreement rule on ast (claimed for layout only)",
         ref="5 C13"),
     "C14": dict(
@@ -128,7 +132,7 @@ CLAIMED = {
              "size, positions must be converted to pixels; structural rules prove the matrix is T(c) R^-1 T(-oc) with the inverse molecule rotation, "
              "that the triples from _prep_iterators are zipped unmodified (one task per molecule of every component), that all five result loops "
              "accumulate with += into a zero buffer (additivity, order independence) and that clipping uses the pads of make_slice_and_pad. "
-             "Interpolation accuracy is not decided.",
+             "Interpolation accuracy is not decided. Added after seeding: units of the 2-D simulator's virtual volume, collectors consumed after a loop are created before it.",
         technique="parity-split affine-form evaluation (abstract interpretation), unit typing, order/accumulation structural rules on ast",
         ref="5 C14"),
     "C15": dict(
@@ -160,7 +164,7 @@ CLAIMED = {
              "projection use the same masked flattened stack; classify builds the stack in molecule order with each molecule's own quaternion, adds "
              "exactly one label column to a copy of the molecules and goes through replace (effect analysis: no write to self); the masked difference "
              "applies the same wedge and transform to image and template. Equality with an exact SVD and cluster separation are numerical/statistical "
-             "and not decided.",
+             "and not decided. Known finding D32: the classifier's PCA uses svd_solver='auto', which becomes the randomized (approximate) solver above 500 samples/features.",
         technique="CFG must-pass-through, def-use/slot rules on ast, effect analysis, linear-image provenance (homogeneity domain) for the difference map",
         ref="5 C18"),
     "C19": dict(
